@@ -13,7 +13,7 @@ PROPS = {
         "rule": "rapid-generated nodes built with the engine's own mutators (leaf: 0..9 cells, values 0..400 bytes of three byte patterns, "
                 "any tombstone subset, all sibling flag/offset combinations, any LSN/offset, optional post-split halves; internal: 0..290 cells, optional split) "
                 "plus an exhaustive sweep of all leaf shapes with <=3 cells x sizes {0,1,400} x tombstones x flags (shard 0). "
-                "Non-trivial: leaf with a tombstone and a sibling flag, or a node at (max-1..max) occupancy with a maximum-size value / internal node with >=289 cells; "
+                "A leaf read back must also behave like the page written: the same update applied to it must give the expected page, also after another write + read. Non-trivial: leaf with a tombstone and a sibling flag, or a node at (max-1..max) occupancy with a maximum-size value / internal node with >=289 cells; "
                 "distinct by canonical case JSON (FNV-64).",
         "assumptions": ["keys arrive in ascending order (the engine's shared counter), so the offset array is the identity; non-identity offset arrays are not generated"],
         "technique": "property-based testing (rapid): generated nodes, encode/decode round-trip + file-store round-trip + idempotence oracle; bounded-exhaustive small shapes",
@@ -30,7 +30,7 @@ PROPS["C01"] = {
             "UPDATE / DELETE statements over 1-12 tables, executed as SQL text through Session.ExecQuery (direct statement values through engine.Evaluate*), "
             "with generated flushes; after every k-th statement and at the end SELECT * of each table is compared as a sequence with the reference model, "
             "row ids must be stable, strictly increasing and never reused, and sys_schema / sys_pages must equal the declared schemas; the end state is compared again after a flush + reload and after USE of another database and back (close and reopen without log replay). "
-            "Non-trivial: an UPDATE/DELETE on a table that later goes through >=1 more leaf split, or >=2 switches between tables among the inserts, or >=7 tables (sys_pages split); distinct by case JSON.",
+            "One CREATE TABLE in eight uses a name differing from an existing table's only in letter case; the end state is compared once more after a clean shutdown and restart. Non-trivial: an UPDATE/DELETE on a table that later goes through >=1 more leaf split, or >=2 switches between tables among the inserts, or >=7 tables (sys_pages split); distinct by case JSON.",
     "technique": "stateful property-based testing (rapid) against an in-memory reference model",
     "level_text": "Model-based random search over statement histories biased to cross the structural thresholds (9-cell leaves, catalog splits, multi-level trees in the thorough tier). Finds lost/duplicated/resurrected/leaked rows and catalog drift on the explored histories; it cannot show their absence in general.",
     "level_note": "Trusted: the reference model (harness/model) and the comparison code. The flush timer is replaced by generated explicit flushes (hook VerifNoTimer); concurrency is C13's business.",
@@ -44,7 +44,7 @@ PROPS["C02"] = {
             "(never / always / random subset / only after DDL), each segment ended by process death (stores abandoned, nothing flushed) or clean shutdown; "
             "in segment 0 a crash image (copy of data file and log) is taken after EVERY statement and recovered with the real InitStorage; every image and every "
             "segment end is recovered twice and compared (value sequences, stable never-reused row ids, catalog) with the model at that statement boundary; later segments run on the recovered files. "
-            "Low-rate profile 'deep tree': a 1100-1500 row bulk load (three tree levels), then inserts/deletes/updates of the most recent rows before the crash points. Non-trivial: some crash point had both flushed and log-only acknowledged changes (dirty pages present after an earlier flush) and the case contains UPDATE or DELETE; distinct by case JSON.",
+            "Low-rate profile 'deep tree': a 1100-1500 row bulk load (three tree levels), then inserts/deletes/updates of the most recent rows before the crash points. One segment in four is interleaved with statements that are invalid on purpose (they must be refused and leave no trace, also in later recoveries). Non-trivial: some crash point had both flushed and log-only acknowledged changes (dirty pages present after an earlier flush) and the case contains UPDATE or DELETE; distinct by case JSON.",
     "technique": "fault injection by enumeration of crash points per generated history (rapid), recovery compared with a reference model",
     "level_text": "For every generated history all between-statement crash points of the first segment plus every segment end are enumerated and recovered with the real recovery code, under generated flush placements and repeated crash/recover cycles. Exhaustive per history, random over histories.",
     "level_note": "Crash = process death: every completed write is in the files (mkdb never fsyncs the data file, so this is the strongest model the code could meet). Flush timer replaced by explicit generated flushes (VerifFlush is the timer's tick). Trusted: reference model, image copy.",
@@ -58,7 +58,7 @@ PROPS["C03"] = {
             "EVERY write and fsync the victim issues on the log, and at each such point two crash images are taken (log as written so far; log cut at the last fsync); every image is "
             "recovered with the real InitStorage and must equal the model state before the victim plus the first r row operations for some r in 0..n (other tables untouched, catalog intact), "
             "then 1-3 follow-up multi-row inserts run on the recovered files and are compared with the model continued from that prefix. "
-            "One case in five starts with 7-11 tables (multi-page catalog). Non-trivial: a victim with >=3 row operations whose images recovered to at least two different prefixes r (e.g. r=0 before the log write and r=n after the write but before its fsync; proper prefixes 0<r<n are labelled separately); distinct by case JSON.",
+            "One case in five starts with 7-11 tables (multi-page catalog). One case in six has a restart inside the history (burst of CREATE TABLEs, restart, root-moving INSERT); follow-up inserts go into every table. Non-trivial: a victim with >=3 row operations whose images recovered to at least two different prefixes r (e.g. r=0 before the log write and r=n after the write but before its fsync; proper prefixes 0<r<n are labelled separately); distinct by case JSON.",
     "technique": "fault injection at every log write/fsync call of generated victim statements (rapid + build-tag hook), prefix-state oracle from a reference model",
     "level_text": "All log-write crash points of each generated victim statement are enumerated (exhaustive per statement, both tail-cut variants) and recovered with the real code; histories and victims are random.",
     "level_note": "Crash = process death at a write-call boundary (the property's own granularity); a torn individual write() is not generated. Trusted: reference model with prefix semantics, hook placement (before each Write/Sync in wal.flush).",
@@ -72,7 +72,7 @@ PROPS["C04"] = {
             "the one in shutdown, and the one that ends recovery of the crashed image) is recorded through the hooks and its torn states are composed: pre-flush file + subset S of the flushed pages + old header, "
             "all 2^|D| subsets for |D|<=6 else >=64 sampled incl. all singletons and co-singletons; each composed image is recovered with the real InitStorage and compared with the model of all statements acknowledged "
             "before the flush began (an in-flight CREATE TABLE may or may not exist). Subsets inside the listed finding's region (proper non-empty subsets of a flush that wrote a page at/after the on-disk allocation frontier) are "
-            "excluded from the verdict, counted, and a sample of them is recovered in a child process for the statistics. Low-rate profiles: 4-8 tables up front with further CREATE TABLEs (a flush has to publish a new catalog root), and an unflushed 1040-1400 row bulk load (one flush of several hundred pages). Non-trivial: a case with a flush of >=2 dirty pages for which a proper non-empty subset outside the region was recovered; distinct by case JSON.",
+            "excluded from the verdict, counted, and a sample of them is recovered in a child process for the statistics. Low-rate profiles: 4-8 tables up front with further CREATE TABLEs (a flush has to publish a new catalog root), and an unflushed 1040-1400 row bulk load (one flush of several hundred pages). After recovering a torn state (first, last, all-pages and every third composition) one more INSERT per table is issued (newest table first), the process dies again without a flush and the second recovery is compared too. Non-trivial: a case with a flush of >=2 dirty pages for which a proper non-empty subset outside the region was recovered; distinct by case JSON.",
     "technique": "fault injection by composing torn flush states (page subsets) per recorded flush of generated histories (rapid + hooks), recovery compared with a reference model",
     "level_text": "Per generated history every flush is attacked with all (or >=64 sampled) page-subset torn states at page granularity, which covers every write order Go's map iteration could take; histories are random. The region of the listed structural finding is excluded by construction and counted.",
     "level_note": "Page-granular tearing (a torn 4096-byte write is not generated); crash = process death. Trusted: the composition (checked against the real file after each flush by construction: S=D + new header is the real post image), reference model.",
@@ -85,7 +85,7 @@ PROPS["C10"] = {
     "rule": "rapid-generated statement trees over the whole supported grammar (SELECT with <=3 joins, OR-of-AND conditions, aggregates with GROUP BY, ORDER BY <=6 keys, LIMIT/OFFSET in both orders; multi-row INSERT, UPDATE, DELETE, CREATE TABLE/DATABASE, USE, SHOW DATABASE[S]), "
             "each rendered twice with independent layout choices (keyword case, spaces/tabs/newlines, optional INNER/AS/ASC, delimited identifiers, trailing semicolon) and parsed by the real scanner+parser; "
             "both parses must equal, structurally (canonical printer over the sql AST), the AST the tree denotes. Plus exhaustively (shard 0): all 63 OR/AND shapes with <=6 comparisons x all 2^n valuations in 6 clause contexts, "
-            "evaluated over the parsed AST by an independent evaluator against 'AND binds tighter than OR'. One identifier in twelve is a keyword / blank-containing / dotted / digit-led name (written delimited) or a name in another script (also written bare). Non-trivial: >=2 clauses beyond FROM, or a list with >=3 elements, or a condition mixing AND and OR; distinct by tree JSON.",
+            "evaluated over the parsed AST by an independent evaluator against 'AND binds tighter than OR'. One identifier in twelve is a keyword / blank-containing / dotted / digit-led name (written delimited) or a name in another script (also written bare). Names beginning or ending with a keyword (order_id, t_select, Database_Name); string literals with typographic quotes, back-ticks, no-break spaces. Non-trivial: >=2 clauses beyond FROM, or a list with >=3 elements, or a condition mixing AND and OR; distinct by tree JSON.",
     "technique": "grammar-based property testing (rapid): render/parse round trip against an explicit tree-to-AST mapping, metamorphic double rendering, bounded-exhaustive boolean shapes",
     "level_text": "Random search over statement trees and their renderings with a structural round-trip oracle; the precedence sub-property is checked exhaustively up to 6 comparisons. Search, not proof.",
     "level_note": "Trusted: the harness's tree-to-AST mapping (mk/ast.go) and canonical printer (token positions and nil-vs-empty lists are normalised away). Only statements of the grammar the parser implements are generated (no parentheses, no NULL literal, no unary minus).",
@@ -112,7 +112,7 @@ PROPS["C05"] = {
     "rule": "rapid-generated (table, query) pairs: a table of 2-5 NULL-free columns over all four types with 0-40 rows from small value domains (ties, duplicates, empty tables), and 1-10 SELECTs over it written as SQL text with layout variations: "
             "select list * or 1-4 items (columns, optionally qualified by table name or alias; comparison/boolean expressions; literals; aliases with or without AS), WHERE = OR-of-ANDs of well-typed comparisons (column/literal in either order, column/column), "
             "ORDER BY 0-3 output columns by name, alias or qualified name with ASC/DESC/default, LIMIT and OFFSET in either order with values around the result size. Oracle: reference evaluator (harness/ref); without ORDER BY exact sequence, with ORDER BY a validity predicate "
-            "(length, sort-key tuples of the window, per-key-class sub-multiset) that accepts every order of tied rows; headings compared where the property determines them (column name or alias). Every query additionally goes through Session.ExecQuery - the console's route, which only prints - with standard output captured: the printed table must be the table of the evaluated result; pairs of queries that differ only inside a string literal (letter case, spacing) are generated for this. Non-trivial: WHERE mixing AND and OR over >=3 comparisons, or >=2 sort keys with a tie on the first, or OFFSET/LIMIT cutting through the result, with a filter keeping neither nothing nor everything; distinct by (table, rows, query) JSON.",
+            "(length, sort-key tuples of the window, per-key-class sub-multiset) that accepts every order of tied rows; headings compared where the property determines them (column name or alias). Every query additionally goes through Session.ExecQuery - the console's route, which only prints - with standard output captured: the printed table must be the table of the evaluated result; pairs of queries that differ only inside a string literal (letter case, spacing) are generated for this. String values include near-duplicates (trailing / leading blanks, letter case, numeric look-alikes). Non-trivial: WHERE mixing AND and OR over >=3 comparisons, or >=2 sort keys with a tie on the first, or OFFSET/LIMIT cutting through the result, with a filter keeping neither nothing nor everything; distinct by (table, rows, query) JSON.",
     "technique": "property-based differential testing (rapid) against an independent reference evaluator; tie-tolerant validity predicate for ORDER BY",
     "level_text": "Random search over tables and grammar-derived queries compared with a reference meaning. Search, not proof.",
     "level_note": "Trusted: harness/ref evaluator and model. Only well-typed queries over NULL-free columns (the property's domain); ORDER BY keys are output columns (the engine documents ErrSortFieldNotFound otherwise).",
@@ -124,7 +124,7 @@ PROPS["C06"] = {
     "rule": "rapid-generated cases: 1-3 tables (INT key over {0..3} so keys repeat and rows stay unmatched, shared and table-unique column names, 0-12 rows, empty tables included) and 1-8 queries with a left-deep chain of 1-2 joins "
             "(JOIN / INNER JOIN / LEFT JOIN / RIGHT JOIN, the same table twice under two aliases allowed), ON = 1-2 comparisons (=, <, !=, >=; AND or OR) between columns of tables that cannot be NULL-padded at that point (plus, in a second join, equality against a column of a NULL-padded table, which is never true for the padded rows), "
             "select list * or qualified/unique-unqualified columns, optional WHERE on a never-padded column, all as SQL text; 1 in 6 queries misaddresses a column on purpose (unqualified but present on both sides; name-qualified although aliased; unknown) and must be rejected. "
-            "Oracle: reference nested loops + NULL padding compared as multisets of value tuples, headers compared. Non-trivial: two-join chain, or self-join, or a NULL-padded row together with a duplicated join key, or a must-be-rejected query; distinct by (tables, query) JSON.",
+            "Oracle: reference nested loops + NULL padding compared as multisets of value tuples, headers compared. Tables may share a VARCHAR column s and ON may contain s = s next to the INT comparison (composite keys whose printed concatenations coincide). Non-trivial: two-join chain, or self-join, or a NULL-padded row together with a duplicated join key, or a must-be-rejected query; distinct by (tables, query) JSON.",
     "technique": "property-based differential testing (rapid) against a reference join evaluator, multiset comparison; negative cases for addressing rules",
     "level_text": "Random search over small tables and join chains against the relational definition. Search, not proof.",
     "level_note": "Trusted: harness/ref. ON/WHERE never touch NULL-padded columns (SQL three-valued logic is outside the property). Result order is not compared.",
@@ -137,7 +137,7 @@ PROPS["C07"] = {
             "NULLs in every grouping column including the table's first column (NULL next to the string '<nil>', strings containing commas, a second VARCHAR grouping column), AVG columns small or up to +-2^31 / +-2^40, optionally t1 for a join; 1-8 aggregate queries as SQL text: COUNT(*), COUNT(col), AVG(col) in any select-list position, 0-3 grouping columns referenced in GROUP BY (comma separated) by name, qualified name or alias, "
             "optional WHERE and JOIN. Oracle: reference grouping by value tuples, exact rational mean (either neighbour accepted at an exact half), compared as a multiset; metamorphic second run on a shadow database holding the same rows in a generated permutation. "
             "An AVG cell that deviates from the true rounded mean but equals the running mean re-rounded after every row in scan order is classified as the listed finding C07-avg-running-mean (counted, not raised). "
-            "One query in four carries LIMIT/OFFSET (the answer must be a sub-multiset of the aggregated rows of exactly the window's size); aliases may shadow another grouping column's name under fully qualified GROUP BY references (refusal as ambiguous allowed, a wrong answer not). Non-trivial: >=2 grouping columns with two groups whose concatenated printed keys coincide, or an AVG group whose running-rounded mean differs from the true rounded mean, or a grouping column that is not first in the select list; distinct by (tables, query) JSON.",
+            "One query in four carries LIMIT/OFFSET (the answer must be a sub-multiset of the aggregated rows of exactly the window's size); aliases may shadow another grouping column's name under fully qualified GROUP BY references (refusal as ambiguous allowed, a wrong answer not). One case in three also sends the query texts through Session.ExecQuery, alternating between two databases holding tables of the same names with different rows: the printed table must be the one evaluated in the selected database. Non-trivial: >=2 grouping columns with two groups whose concatenated printed keys coincide, or an AVG group whose running-rounded mean differs from the true rounded mean, or a grouping column that is not first in the select list; distinct by (tables, query) JSON.",
     "technique": "property-based differential testing (rapid) against a reference aggregator + metamorphic row-order permutation",
     "level_text": "Random search over tables built to provoke key collisions and rounding differences, compared with exact arithmetic. Search, not proof.",
     "level_note": "Trusted: harness/ref. AVG only over NULL-free integer columns, grouping columns always in the select list (the property's domain). The listed AVG finding is recognised by its exact mechanism (value equals the legacy running mean), any other deviation is a violation.",
@@ -150,7 +150,7 @@ PROPS["C08"] = {
             "(INT/BIGINT extremes, 2^53+1, empty strings, NUL/0xFF/invalid UTF-8 bytes, NULLs), rows built to encode to exactly 400 bytes (must be accepted) and 401 bytes (must be refused), wrong-kind values, INT beyond 32 bits; "
             "each statement as SQL text when the dialect can express it, else as direct statement values. After every statement SELECT * must equal the model bit-for-bit (refused statements: error and unchanged table); "
             "the comparison is repeated after flush + cache shrink to 6 pages + scan of another table (eviction, reload from disk), after a clean restart, (one case in three) after USE of another database and back, and (phase 2, unflushed) after crash + recovery. "
-            "Non-trivial: a 400-byte boundary row with at least one reload, or a refused value placed in a column that is not the first; distinct by case JSON.",
+            "Operations include single-row DELETEs; the case ends with one more clean restart after the crash + recovery. Non-trivial: a 400-byte boundary row with at least one reload, or a refused value placed in a column that is not the first; distinct by case JSON.",
     "technique": "property-based round-trip testing (rapid) across four observation points (memory, reloaded page, restart, crash recovery) against a reference model with its own size/validity rules",
     "level_text": "Random search biased to encoding boundaries; the 400/401 boundary is computed by the model's own size formula, not taken from the code. Search, not proof.",
     "level_note": "Trusted: model.EncodedSize / ValidateValue (written from the documented row format), exact Go-value comparison. Multi-row failing statements are C14's business and not generated here.",
@@ -163,7 +163,7 @@ PROPS["C14"] = {
             "and INSERT with column-count mismatch / type mismatch / INT out of range / oversize row where the offending row sits at every index k of n rows, UPDATE with a bad value, UPDATE that becomes oversize only at the k-th matching row, CREATE TABLE whose k-th column the catalog cannot record, DELETE/UPDATE whose WHERE cannot be evaluated for a later row, the table addressed in another letter case (the last three are the implementation's choice to refuse: checked as implication only). "
             "Oracle: an error is returned and every table, row id and the catalog equal the model of the history, immediately, after crash + recovery of the files as they are, and after (optional tick +) clean restart; then a valid insert per table must work. "
             "A deviation that is exactly 'the row operations before the offending one stayed applied' is classified as the listed finding C14-multirow-partial-apply (counted, not raised); anything else is a violation. "
-            "Every shard also runs one fixed huge VALID statement (3000-5500 row INSERT/UPDATE, 7000-12000 row DELETE) under the implication-only oracle (if it fails, nothing stays behind). Non-trivial: multi-row statement with the offending row not first, or unflushed changes present before the failing statement; distinct by case JSON.",
+            "Every shard also runs one fixed huge VALID statement (3000-5500 row INSERT/UPDATE, 7000-12000 row DELETE) under the implication-only oracle (if it fails, nothing stays behind). Further implication-only kind: CREATE TABLE naming a column twice. Non-trivial: multi-row statement with the offending row not first, or unflushed changes present before the failing statement; distinct by case JSON.",
     "technique": "property-based testing (rapid) of failing statements against a reference model, observed at three points (memory, crash recovery, restart)",
     "level_text": "Random search over states and failing statements with the offending row at every position. Search, not proof.",
     "level_note": "Trusted: model validity classification (model.Apply) and prefix semantics. The listed finding is recognised by its exact after-state; a different residue is reported.",
@@ -200,7 +200,7 @@ PROPS["C18"] = {
     "rule": "rapid-generated cases: a session state (database selected and populated with four tables over all four column types holding NULLs, an empty table; no USE yet; failed USE; USE of an empty database; the populated database with the REAL 100 ms flush timer running and statements held open for 130 ms at a page lookup, so that ticks fall due in the middle of statements) and 5-40 statements executed through Session.ExecQuery: "
             "4 in 5 are drawn from the full statement grammar with identifiers from the same pools the schema uses, so that they resolve tables and columns and then apply AVG/COUNT/ORDER BY/comparisons/INSERT/UPDATE values to columns of arbitrary type and to NULLs, "
             "or miss, duplicate or ambiguously name columns; 1 in 5 from a list of 70 targeted statements (aggregates over VARCHAR/BOOLEAN/NULL, ORDER BY over NULLs and ambiguous keys, mistyped comparisons, catalog tables, degenerate DDL). "
-            "Oracle: the call returns nil or an error within 20 s, never panics (recover), the worker never dies (journal), and the session still answers a SELECT afterwards. A low-rate 'bulk' state (700 rows in t2, whole-table statements, 511-1030 row INSERTs). Non-trivial: the statement parses and the engine refuses it (an error path); distinct by (state, SQL text).",
+            "Oracle: the call returns nil or an error within 20 s, never panics (recover), the worker never dies (journal), and the session still answers a SELECT afterwards. A low-rate 'bulk' state (700 rows in t2, whole-table statements, 511-1030 row INSERTs). The schema has 23-25 character column names; ~45 targeted statements just outside the grammar (avg(*), count(), aggregates in WHERE/ORDER BY/VALUES); one generated statement in five is mutated at token level. Non-trivial: the statement parses and the engine refuses it (an error path); distinct by (state, SQL text).",
     "technique": "grammar-based fuzzing of the executor (rapid): type- and name-confused statements against NULL-bearing tables; oracle: no panic / no hang / session survives",
     "level_text": "Random search for crashing statements. Search, not proof.",
     "level_note": "A hang is declared after 20 s for one statement. Parse-level crashes are C09's business (counted here as parse-error).",
@@ -212,7 +212,7 @@ PROPS["C15"] = {
     "rule": "operation sequences over LRUCache.set (clean or already-dirty page, same or fresh page object) / get / markDirty / markClean, run against the real cache and a list-based reference model written from the property's text; after EVERY step the boolean of set, "
             "(page identity, found) of get, resident key set, recency order (read from the internal list), index/list consistency and size <= capacity are compared. (a) bounded-exhaustive: all sequences of depth 5 (thorough: 6) over capacities 1-3 with capacity+1 keys "
             "(alphabet 10-20 operations, split over the shards by first operation); (b) rapid: sequences of 20-400 operations at capacities 1-6 and 200-2000 operations at capacities 5-64. "
-            "Pages are a mix of leaf and internal nodes; one random case in a hundred uses capacities 1025-2500 with run-length insertions. Non-trivial: the sequence performed an eviction that had to skip a dirty entry, or an insertion that was refused; distinct by sequence JSON.",
+            "Pages are a mix of leaf and internal nodes; one random case in a hundred uses capacities 1025-2500 with run-length insertions. The reference model owns its dirty flags (compared with the page's own flag after every step); the LSN of a dirty transition varies, downwards too. Non-trivial: the sequence performed an eviction that had to skip a dirty entry, or an insertion that was refused; distinct by sequence JSON.",
     "technique": "model-based property testing (rapid) + bounded-exhaustive enumeration of operation sequences against a reference LRU",
     "level_text": "Exhaustive to depth 5/6 in small scopes, random beyond. Search, not proof.",
     "level_note": "Trusted: the reference model in the test (list with dirty flags). In-package: reads LRUCache.list and .cache directly.",
@@ -239,7 +239,7 @@ PROPS["C19"] = {
             "(repeats allowed), separator in {',', ';', tab, '|'}, 0-3 pre-existing rows, and a stream of 1-25 records built by class so that the expected outcome of each record is known by construction: valid (numbers in plain / zero-padded / signed / extreme forms, every accepted boolean spelling in any case, "
             "strings containing the separator, quotes, line feeds), \\N in a mapped field, unparsable or out-of-range value for the column type, short record, bare quote in an unquoted field, text after a closing quote, extra fields, oversize string. "
             "Oracle: exactly one ok/error event per record, in record order and of the expected kind; afterwards Fetch returns the pre-existing rows untouched followed by exactly the accepted records in input order, mapped columns holding the converted values, unmapped columns NULL. "
-            "Separators include non-ASCII characters; one import in ten writes the -dest-cols/-src-cols lists with blanks after the commas (refusal allowed, a different import not). Non-trivial: a rejected record strictly between two accepted ones and at least one \\N; distinct by case JSON.",
+            "Separators include non-ASCII characters; one import in ten writes the -dest-cols/-src-cols lists with blanks after the commas (refusal allowed, a different import not). After the in-session comparison the importing program exits the way main() does (nothing flushed or closed), start-up recovery runs and the table is compared again; half of the cases run with WAL fsync disabled. Non-trivial: a rejected record strictly between two accepted ones and at least one \\N; distinct by case JSON.",
     "technique": "property-based testing (rapid) with record streams constructed by class against by-construction expectations (in-package, real storage)",
     "level_text": "Random search over schemas, mappings, separators and record streams. Search, not proof.",
     "level_note": "Trusted: the CSV rendering in the test (RFC 4180 quoting) and Go's encoding/csv for well-formed input. No carriage returns (the stdlib reader rewrites CRLF, which is not mkdb's doing).",
@@ -251,7 +251,7 @@ PROPS["C20"] = {
     "rule": "rapid-generated console sessions fed to the real Terminal (NewTerminal / ReadLine, separate reader and writer): 1-6 statements of 1-10 tokens each ending in ';', with single- and double-quoted literals containing semicolons, the other quote character, spaces, multi-byte runes, comment openers; "
             "line breaks (CR, LF CR, CR LF, with trailing spaces, empty lines) at token boundaries and Enter pressed inside a literal (which the console turns into a space, also right after an in-literal semicolon), several statements per line or one over many lines; the byte stream is delivered bytewise (typed), in one piece (pasted), or in generated chunk sizes 1-40 that split multi-byte runes and escape sequences; "
             "1 in 6 sessions is wrapped in bracketed-paste markers. Oracle: the statements returned by successive ReadLine calls, concatenated, are exactly the entered statements, once each and in order, equal after collapsing white space outside quotes (quoted text byte for byte). "
-            "Non-trivial: a literal containing ';' and a statement that spans two lines or shares its line; distinct by case JSON.",
+            "Literals include non-graphic characters (zero-width joiners, soft hyphen, BOM, private use, emoji ZWJ sequences). Non-trivial: a literal containing ';' and a statement that spans two lines or shares its line; distinct by case JSON.",
     "technique": "property-based testing (rapid) of the terminal line discipline with a by-construction oracle (in-package main)",
     "level_text": "Random search over statement lists, layouts and read chunkings. Search, not proof.",
     "level_note": "A line break typed inside a literal becomes a space (the console's documented line joining), the oracle expects exactly that; no backslashes in literals; inputs stay below the terminal's 4096-rune line limit. ErrPasteIndicator is treated as 'line data returned' as x/term documents.",
@@ -263,7 +263,7 @@ PROPS["C13"] = {
     "rule": "rapid-generated schedules: 6-14 statements (CREATE TABLE, INSERT, UPDATE, DELETE, SELECT) run through a Session with the REAL 100 ms flush timer in a binary built with -race; for up to 4 generated statements the verif hook parks the session goroutine for 120-350 ms (1-3 ticks) "
             "at the statement's log write (all its page changes done, log append pending) or, for statements that do not log (CREATE TABLE, SELECT), at a generated page lookup; generated idle gaps of 0-150 ms let ticks land before, inside and after statements. "
             "Oracles: (1) monitor: while a statement is parked no flush, page write or header write may happen on another goroutine; (2) every race-detector report with one side inside engine.EvaluateCreateTable/Insert/Update/Delete/Select and the other inside the flusher is a violation "
-            "(other reports, e.g. USE racing the timer, are counted as out of scope); (3) table contents equal the model afterwards. One schedule in eight is a bulk schedule: 520-1100 rows, then whole-table UPDATE/DELETE/SELECT statements held open at an early page lookup. Non-trivial: a DDL/DML statement was parked and the flusher demonstrably waited (it flushed within 60 ms after the park ended); distinct by schedule JSON.",
+            "(other reports, e.g. USE racing the timer, are counted as out of scope); (3) table contents equal the model afterwards. One schedule in eight is a bulk schedule: 520-1100 rows, then whole-table UPDATE/DELETE/SELECT statements held open at an early page lookup. Half of the SELECTs are chains of one or two joins (several table fetches inside one bracket). Non-trivial: a DDL/DML statement was parked and the flusher demonstrably waited (it flushed within 60 ms after the park ended); distinct by schedule JSON.",
     "technique": "schedule-controlled testing: generated delay injection through build-tag hooks + happens-before race detection (-race) as a sanitizer, scoped to the property",
     "level_text": "The weakest check: a few dozen harness-owned schedules; happens-before detection does not depend on the observed timing, parking makes the overlapping accesses actually occur. Interleavings the parked schedules never bring together are missed; failures do not shrink.",
     "level_note": "Wall-clock time decides only WHICH schedules are exercised, never the verdict. Trusted: the hook placement (before log writes, inside flushPages under the lock, in setCache), Go's race detector.",
